@@ -17,6 +17,7 @@ package s2
 import (
 	"bufio"
 	"encoding/binary"
+	"errors"
 	"io"
 	"math"
 )
@@ -210,4 +211,17 @@ func (d *decoder) readUvarint() (x uint64) {
 	}
 	x, d.err = binary.ReadUvarint(d.r)
 	return
+}
+
+// readPoint reads the three coordinates of a Point. A point with a NaN or
+// infinite coordinate is rejected: no valid encoding contains one, and the
+// exact predicates cannot represent such values.
+func (d *decoder) readPoint() (p Point) {
+	p.X = d.readFloat64()
+	p.Y = d.readFloat64()
+	p.Z = d.readFloat64()
+	if d.err == nil && (math.IsNaN(p.X+p.Y+p.Z) || math.IsInf(p.X+p.Y+p.Z, 0)) {
+		d.err = errors.New("point with a non-finite coordinate")
+	}
+	return p
 }
